@@ -94,7 +94,8 @@ func oracle(c *Case, o *Obs, res *hx.Result) {
 		}
 	}
 
-	// ---- dependencies: a reference carried by an event AND written as a fixed reference in the node that produced it
+	// ---- dependencies: a reference carried by an event AND named as a fixed asset by the node that produced it (by
+	// identity, or by an expression-free name / the documented default: nodeFixedRefs)
 	for _, t := range o.Carried {
 		if !t.InDef || !statementKinds[t.Ref.Kind] {
 			continue
@@ -110,7 +111,10 @@ func oracle(c *Case, o *Obs, res *hx.Result) {
 				found = true
 			}
 		}
-		if !found {
+		if !found && t.How != "" {
+			res.Fail("touched-asset-not-a-dependency:"+t.Ref.Kind+":"+t.How, c, fmt.Sprintf("flow %d node %s: event %s carries %s %s, which the node names (%s), but Inspect().dependencies is %v",
+				t.Flow, t.Node, t.Event, t.Ref.Kind, t.Ref.ID, t.How, in.Deps))
+		} else if !found {
 			res.Fail("touched-asset-not-a-dependency:"+t.Ref.Kind+":"+t.Event, c, fmt.Sprintf("flow %d node %s: event %s carries %s %s, written in the node, but Inspect().dependencies is %v",
 				t.Flow, t.Node, t.Event, t.Ref.Kind, t.Ref.ID, in.Deps))
 		}
